@@ -84,12 +84,39 @@ fn compare(run: &mut Run, pidx: u64, desc: &Value, base: &[Vec<u64>], new: &[Vec
 fn monitor<const COLS: usize, const PIS: usize>(run: &mut Run, pidx: u64, lookups: bool) {
     let mut rng = crate::mon::case_rng(run.seed, 4_500, pidx);
     let degree = if lookups { 3 } else { [2usize, 3, 1][rng.gen_range(0..3)] };
-    let log_n = rng.gen_range(4..=7);
+    // (every fourth proof: a trace long enough that its own final polynomial is longer than the one of the
+    // verifier circuit it is padded for)
+    let force_shorter = pidx % 4 == 1;
+    let log_n = if force_shorter { rng.gen_range(7..=8) } else { rng.gen_range(4..=7) };
     let Generated { spec, trace, pis } = if lookups { stk::gen_lookup_family(&mut rng, COLS, PIS, degree, log_n) } else { stk::gen_family(&mut rng, COLS, PIS, degree, log_n) };
     let mut config = stk::gen_stark_config(&mut rng, degree, true);
     config.fri_config.num_query_rounds = config.fri_config.num_query_rounds.max(8);
     let stark = GenStark::<COLS, PIS>::new(spec.clone());
-    let proof = match stark_prove(&stark, &config, &trace, &pis) {
+    // every second proof is made for a verifier circuit sized for a longer trace (transcript padded to that
+    // circuit's final-polynomial length, which may be longer or shorter than the proof's own)
+    let vparams: Option<plonky2::fri::FriParams> = if pidx % 2 == 1 {
+        // schedules that stop on the cap condition with exactly 2^(final_poly_bits+1) coefficients left
+        // (what the prover's padded mode requires of the verifier circuit's parameters)
+        let (a, fb, rate, cap) = [(1usize, 1usize, 1usize, 3usize), (2, 2, 1, 3), (2, 2, 1, 4), (1, 2, 2, 5), (2, 1, 2, 3), (4, 5, 1, 6)][if force_shorter { 5 } else { rng.gen_range(0..6) }];
+        config.fri_config.rate_bits = rate;
+        config.fri_config.cap_height = cap;
+        config.fri_config.reduction_strategy = plonky2::fri::reduction_strategies::FriReductionStrategy::ConstantArityBits(a, fb);
+        Some(config.fri_params(fb + 1 + a * if force_shorter { 1 } else { [0usize, 0, 1, 2, 3][rng.gen_range(0..5)] }))
+    } else {
+        None
+    };
+    let proved = if vparams.is_some() {
+        let pv = stk::to_poly_values(&trace);
+        let pif: Vec<F> = pis.iter().map(|x| F(*x)).collect();
+        match catch(|| starky::prover::prove::<F, C, GenStark<COLS, PIS>, D>(stark.clone(), &config, pv, &pif, vparams.clone(), &mut plonky2::util::timing::TimingTree::default())) {
+            Ok(Ok(p)) => Ok(p),
+            Ok(Err(e)) => Err(format!("error: {e}")),
+            Err(p) => Err(format!("panic: {}", p.msg)),
+        }
+    } else {
+        stark_prove(&stark, &config, &trace, &pis)
+    };
+    let proof = match proved {
         Ok(p) => p,
         Err(e) => {
             run.count(&format!("stark.pool_member_not_built: {}", crate::mon::msg_class(&e).chars().take(50).collect::<String>()), 1);
@@ -99,7 +126,7 @@ fn monitor<const COLS: usize, const PIS: usize>(run: &mut Run, pidx: u64, lookup
     let chal = |p: &StarkProofWithPublicInputs<F, C, D>, cfg: &StarkConfig| -> Option<Vec<Vec<u64>>> {
         catch(|| {
             let mut ch = Challenger::<F, H>::new();
-            p.get_challenges(&stark, &mut ch, None, None, false, cfg, None)
+            p.get_challenges(&stark, &mut ch, None, None, false, cfg, vparams.clone())
         })
         .ok()
         .map(|c| groups(&c))
@@ -116,6 +143,10 @@ fn monitor<const COLS: usize, const PIS: usize>(run: &mut Run, pidx: u64, lookup
     let desc = json!({"stark": spec.describe(), "log_n": log_n, "config": stk::describe_stark_config(&config), "commit_phase_caps": n_commit, "has_lookup_challenges": !base[0].is_empty()});
     run.sample(json!({"stark_transcript": desc}));
     run.count("stark.proofs", 1);
+    if let Some(vp) = &vparams {
+        let own = proof.proof.opening_proof.final_poly.len();
+        run.count(if vp.final_poly_len() < own { "stark.proofs_padded_mode.circuit_final_poly_shorter" } else if vp.final_poly_len() > own { "stark.proofs_padded_mode.circuit_final_poly_longer" } else { "stark.proofs_padded_mode.same_length" }, 1);
+    }
     let cap_sizes: Vec<usize> = proof.proof.opening_proof.commit_phase_merkle_caps.iter().map(|c| c.0.len()).collect();
     let mut commit_slot = 0usize;
     let n = tamper::count_stark_slots::<C>(&proof);
@@ -164,7 +195,7 @@ fn monitor<const COLS: usize, const PIS: usize>(run: &mut Run, pidx: u64, lookup
 }
 
 pub fn monitor_starks(run: &mut Run) {
-    let n: u64 = run.pick(8, 60);
+    let n: u64 = run.pick(16, 90);
     for i in 0..n {
         let pidx = 5_000 + i;
         if run.skip_case(pidx) {
